@@ -73,12 +73,12 @@ func (hub *Hub) Dispatch(msg event.MessageMetadata) {
 			// Add to history buffer
 			h.history.Value = msg
 			h.history = h.history.Next()
+		}
 
-			// Relay event to all listeners, removing listeners if they return an error.
-			for l := range h.listeners {
-				if err := safeReceive(l, msg); err != nil {
-					delete(h.listeners, l)
-				}
+		// Relay event to all listeners, removing listeners if they return an error.
+		for l := range h.listeners {
+			if err := safeReceive(l, msg); err != nil {
+				delete(h.listeners, l)
 			}
 		}
 	}
@@ -87,22 +87,20 @@ func (hub *Hub) Dispatch(msg event.MessageMetadata) {
 // Delete removes the message from the history buffer and instructs listeners to do the same.
 func (hub *Hub) Delete(mailbox string, id string) {
 	hub.opChan <- func(h *Hub) {
-		if h.history == nil {
-			return
-		}
-
-		// Locate and remove history entry.
-		p := h.history
-		end := p
-		for {
-			if next, ok := p.Next().Value.(event.MessageMetadata); ok {
-				if mailbox == next.Mailbox && id == next.ID {
-					p.Next().Value = nil
+		if h.history != nil {
+			// Locate and remove history entry.
+			p := h.history
+			end := p
+			for {
+				if next, ok := p.Next().Value.(event.MessageMetadata); ok {
+					if mailbox == next.Mailbox && id == next.ID {
+						p.Next().Value = nil
+						break
+					}
+				}
+				if p = p.Next(); p == end {
 					break
 				}
-			}
-			if p = p.Next(); p == end {
-				break
 			}
 		}
 
